@@ -25,6 +25,8 @@ def Mode.applyTo (m : Mode) (x : Nat) : Nat :=
   match m with
   | .num v => v
   | .equal t p =>
+    -- after the `fix:`: the bits above the nine permission bits (set-user-ID, set-group-ID, sticky, file type) stay
+    (x &&& (0xFFFF - 0o777)) |||
     (if t &&& 1 ≠ 0 then targetApply 1 p else x &&& 0o700) |||
     (if t &&& 2 ≠ 0 then targetApply 2 p else x &&& 0o070) |||
     (if t &&& 4 ≠ 0 then targetApply 4 p else x &&& 0o007)
@@ -71,8 +73,11 @@ structure StripOpts where
 def faCl : Bytes := [102, 97, 67, 108]
 def faCe : Bytes := [102, 97, 67, 101]
 
-/-- `strip`: applies to every entry (no selection); raw size is preserved by `with_metadata`. -/
-def stripF (o : StripOpts) (e : LEntry) : Option LEntry :=
+/-- `strip`: applies to the entries the command line names (to every entry when it names none — the caller then
+    passes `fun _ => true`; before the `fix:` the FILES arguments were accepted and ignored); raw size is preserved
+    by `with_metadata`. -/
+def stripF (sel : Bytes → Bool) (o : StripOpts) (e : LEntry) : Option LEntry :=
+  if !sel e.name then some e else
   let keepAll := match o.keepPrivate with | some [] => true | _ => false
   let keepTys := (if o.keepAcl then [faCl, faCe] else []) ++ (o.keepPrivate.getD [])
   some { e with
